@@ -269,6 +269,67 @@ def dispatch_rules(repo, rep):
             else:
                 rep.violated('R-DISPATCH', key, w, '%s -> %s: %s' % (sname, tname, why), expected='%s objects, same heights' % tname, actual=why)
     rep.floor('R-DISPATCH', 36, '6 x 6 notation pairs')
+    typed_dispatch_rules(repo, rep, f)
+
+
+def typed_dispatch_rules(repo, rep, f):
+    """each branch of the dispatcher produces the requested notation *from the notation it holds*: a float holds decimal degrees, so
+    the GONAngle branch has to convert (dec -> gon), not relabel; an angle object is converted by the method named after the target"""
+    import copy
+    from .c08 import Typer, CLASS_NOTATION
+    ty = Typer(repo)
+
+    class Sub(ast.NodeTransformer):
+        def visit_Attribute(self, n):
+            if isinstance(n.value, ast.Name) and n.value.id == 'self' and n.attr in ('lat', 'lon'):
+                return ast.copy_location(ast.Name(id=n.attr, ctx=ast.Load()), n)
+            return self.generic_visit(n)
+    n_inst = 0
+    for top in ast.walk(f.node):
+        if not isinstance(top, ast.If):
+            continue
+        t = top.test
+        is_float_src = isinstance(t, ast.Compare) and isinstance(t.ops[0], ast.Eq) and isinstance(t.comparators[0], ast.Name) and t.comparators[0].id == 'float' \
+            and 'type(self.lat)' in stmt_text(t.left)
+        is_obj_src = isinstance(t, ast.Compare) and isinstance(t.ops[0], ast.In) and 'type(self.lat)' in stmt_text(t.left)
+        if not (is_float_src or is_obj_src):
+            continue
+        cur = top.body[0] if top.body and isinstance(top.body[0], ast.If) else None
+        while isinstance(cur, ast.If):
+            ct = cur.test
+            if isinstance(ct, ast.Compare) and isinstance(ct.ops[0], ast.Eq) and isinstance(ct.left, ast.Name) and ct.left.id == f.params[1].name \
+                    and isinstance(ct.comparators[0], ast.Name):
+                target = ct.comparators[0].id
+                want = 'dec' if target == 'float' else CLASS_NOTATION.get(target)
+                for st in cur.body:
+                    if isinstance(st, ast.Assign) and isinstance(st.targets[0], ast.Name) and st.targets[0].id in ('new_lat', 'new_lon'):
+                        n_inst += 1
+                        key = 'R-UNITS::geodepy/coord.py::CoordGeo.notation::%s->%s::%s' % ('float' if is_float_src else 'object', target, st.targets[0].id)
+                        if is_float_src:
+                            e = Sub().visit(copy.deepcopy(st.value))
+                            got = ty.type_of(e, {'lat': 'dec', 'lon': 'dec'})
+                            if got == want:
+                                rep.holds('R-UNITS', key, where(f, st), 'decimal degrees -> %s through %s' % (want, stmt_text(st.value)[:50]))
+                            elif isinstance(got, tuple) and got[0] == '!':
+                                rep.violated('R-UNITS', key, where(f, st), 'a float coordinate holds decimal degrees, but %s: the angle is relabelled, not converted' % got[1],
+                                             expected='dec -> %s' % want, actual=stmt_text(st.value)[:100])
+                            elif isinstance(got, str):
+                                rep.violated('R-UNITS', key, where(f, st), 'the %s branch yields %s notation' % (target, got), expected=str(want), actual=got)
+                            else:
+                                rep.undecided('R-UNITS', key, where(f, st), 'conversion not typed: %s' % (got,))
+                        else:
+                            v = st.value
+                            ok = isinstance(v, ast.Call) and isinstance(v.func, ast.Attribute) and not v.args and stmt_text(v.func.value) == 'self.%s' % st.targets[0].id[4:]
+                            if ok and v.func.attr == want:
+                                rep.holds('R-UNITS', key, where(f, st), 'angle object -> %s by its .%s()' % (target, want))
+                            elif ok:
+                                rep.violated('R-UNITS', key, where(f, st), 'the %s branch converts with .%s(); the method producing %s is .%s()' % (target, v.func.attr, target, want),
+                                             expected='.%s()' % want, actual='.%s()' % v.func.attr)
+                            else:
+                                rep.undecided('R-UNITS', key, where(f, st), 'conversion not of the form self.lat.<method>(): %s' % stmt_text(v)[:60])
+            cur = cur.orelse[0] if len(cur.orelse) == 1 and isinstance(cur.orelse[0], ast.If) else None
+    if n_inst < 20:
+        rep.undecided('R-UNITS', 'R-UNITS::geodepy/coord.py::CoordGeo.notation::branches', where(f, f.node), 'only %d typed branch assignments recognised (22 expected)' % n_inst)
 
 
 def describe_type(v):
